@@ -83,7 +83,7 @@ def boys_rule(repo, R):
                 if isinstance(v, (sp.logic.boolalg.BooleanFunction, sp.core.relational.Relational, sp.Not)):
                     return v
             return mm
-    ev = E(f, {f.params[0]: m, f.params[1]: x}, handlers={"hyp1f1": h_hyp, "gamma": h_gamma, "erf": lambda i, c_: sp.erf(i.expr(c_.args[0])),
+    ev = E(f, {f.params[0]: m, f.params[1]: x}, handlers={"hyp1f1": h_hyp, "gamma": h_gamma, "factorial2": lambda i, c_: sp.factorial2(i.expr(c_.args[0])), "erf": lambda i, c_: sp.erf(i.expr(c_.args[0])),
                                                          "gammainc": lambda i, c_: sp.lowergamma(i.expr(c_.args[0]), i.expr(c_.args[1])) / sp.gamma(i.expr(c_.args[0]))},
            rule="BOYS")
     ev.run()
